@@ -716,6 +716,29 @@ fn const_bytes<'tcx>(tcx: TyCtxt<'tcx>, val: mir::ConstValue, ty: Ty<'tcx>) -> O
                     let end = start + l.size.bytes() as usize;
                     Some(alloc.inner().inspect_with_uninit_and_ptr_outside_interpreter(start..end).to_vec())
                 }
+                // `&&[u8]` / `&&str` (a promoted reference to a byte-string constant, e.g. the operand of `name != abi::ELF_NOTE_GNU`):
+                // the pointee is a fat pointer (relative offset with provenance, len) stored in memory
+                ty::Ref(_, inner2, _)
+                    if matches!(inner2.kind(), ty::Str)
+                        || matches!(inner2.kind(), ty::Slice(e) if is_u8(*e)) =>
+                {
+                    let (prov, off) = ptr.prov_and_relative_offset();
+                    let alloc = tcx.global_alloc(prov.alloc_id()).unwrap_memory();
+                    let a = alloc.inner();
+                    let start = off.bytes() as usize;
+                    if a.len() < start + 16 {
+                        return None;
+                    }
+                    let raw = a.inspect_with_uninit_and_ptr_outside_interpreter(start..start + 16).to_vec();
+                    let (_, prov2) = a.provenance().ptrs().iter().find(|(o, _)| o.bytes() as usize == start)?;
+                    let rel = u64::from_le_bytes(raw[0..8].try_into().ok()?) as usize;
+                    let len = u64::from_le_bytes(raw[8..16].try_into().ok()?) as usize;
+                    let tgt = tcx.global_alloc(prov2.alloc_id()).unwrap_memory();
+                    if tgt.inner().len() < rel + len {
+                        return None;
+                    }
+                    Some(tgt.inner().inspect_with_uninit_and_ptr_outside_interpreter(rel..rel + len).to_vec())
+                }
                 _ => None,
             },
             _ => None,
